@@ -61,6 +61,9 @@ type KnownFinding struct {
 	What     string `json:"what"`
 	Status   string `json:"status"` // known | fixed
 	Commit   string `json:"commit,omitempty"`
+	// Params, when given, restricts the entry to the runs whose shape parameters have these
+	// values: a violation of the same obligation under other parameters is still reported
+	Params map[string]int `json:"params,omitempty"`
 }
 
 func parseRange(s string) []int {
@@ -620,8 +623,16 @@ func checkCmd(args []string) int {
 		for i := range known {
 			k := &known[i]
 			if k.Status == "known" && k.Property == prop && k.Harness == c.FullHarness && k.Kind == c.Kind && k.Label == c.Label && strings.Contains(c.Site, k.SiteFn) {
-				kf = k
-				break
+				match := true
+				for pk, pv := range k.Params {
+					if cv, ok := c.Params[pk]; !ok || cv != pv {
+						match = false
+					}
+				}
+				if match {
+					kf = k
+					break
+				}
 			}
 		}
 		if kf != nil {
